@@ -19,8 +19,8 @@ import (
 	"k8s.io/apimachinery/pkg/runtime"
 	"k8s.io/apimachinery/pkg/types"
 	"k8s.io/apimachinery/pkg/util/validation/field"
-	"k8s.io/client-go/tools/cache"
 	ktesting "k8s.io/client-go/testing"
+	"k8s.io/client-go/tools/cache"
 
 	configv1alpha1 "github.com/furiko-io/furiko/apis/config/v1alpha1"
 	execution "github.com/furiko-io/furiko/apis/execution/v1alpha1"
@@ -1312,7 +1312,7 @@ func (w *crWorld) scenarios() {
 		h.addVersion(v2)
 		h.jcSet(v1)
 		h.request(v1, 100, "none", true)
-		h.jcSet(v2) // deleted and re-created under the same name
+		h.jcSet(v2)                      // deleted and re-created under the same name
 		h.request(v2, 100, "none", true) // the old Job still holds the name: AlreadyExists, retried
 		h.jobDel("ns", "jc-100")         // garbage collection of the old owner's Job
 		h.request(v2, 100, "none", true)
